@@ -4,6 +4,7 @@ CONSTANTS
   MaxNodes = 3
   MaxDepth = 2
   EmitAll = TRUE
+  WideLeaves = TRUE
 INVARIANTS Inv Precedence Emit
 PROPERTIES GlobalWrittenOnlyByAssign
 CHECK_DEADLOCK FALSE
